@@ -286,6 +286,15 @@ def scenarios : List (String × List Item) :=
           obs "leaf1"
           complete (some f1) (complete (some f0) (complete (some fi) (pure ())))))
         emit (.op (.deactivate fi))
+        emit (.op (.rootDtor r))),
+    -- the same in a build WITHOUT async stacks: sync_wait.hpp installs initial_stack_root unconditionally,
+    -- connect/start/completion emit nothing
+    ("sync_wait_nostacks", build do
+        let fi ← mkFrame
+        let r ← mkRoot
+        emit (.op (.activate r fi))
+        obs "leaf1"
+        emit (.op (.deactivate fi))
         emit (.op (.rootDtor r))) ]
 
 /-- the answer to `ask asyncstack <scenario> |` -/
